@@ -465,8 +465,9 @@ package ro
 //@   note the teardown
 //@   props C17 C03
 //@   binds subscriptions
-//@   track subscriptions.* call.Once.Do chclose.*
+//@   track subscriptions.* call.Once.Do chclose.* chrecv.* chsend.* chselect chpoll
 //@   ensures [releases-upstream-then-closes-once|C17,C03] trace(subscriptions.Unsubscribe(), call.Once.Do)
+//@   ensures [takes-nothing-out-of-the-channel|C17] count(chrecv.ANY) == 0 && count(chpoll) == 0 && count(chselect) == 0
 
 // detachOn (ObserveOn / SubscribeOn, operator_utility.go): a channel of the configured capacity; one blocking send
 // per upstream notification, in callback order; the channel is closed after the terminal notification; one consumer
